@@ -18,11 +18,11 @@ RULE = ('cut-free 1-3 rule grammars (C01 generator) with 1-3 cuts inserted at ra
         'sentences derived from the grammar, the same sentences corrupted at the lexeme right after a passed cut, near misses. '
         'non-trivial = the reference trace shows a failure after an executed cut in the same scope; classes by construct '
         '(option / optional / closure iteration 1 / iteration >= 2 / join after separator / rule-level option); '
-        'every case is also parsed with prune_memos_on_cut=False and perlinememos=0.01 (same outcome required); distinct = distinct (grammar, input)')
+        'the generated parser must accept and consume what the model does (templates: always; random: half); every case is also parsed with prune_memos_on_cut=False and perlinememos=0.01 (same outcome required); distinct = distinct (grammar, input)')
 ASSUMPTIONS = [
     'a cut written directly in a plain group without a choice, or inside a lookahead, is flagged U7 (docs and engine differ) and only the metamorphic and locality oracles judge it',
 ] + c01.ASSUMPTIONS
-BUDGET_S = {'quick': 120, 'thorough': 1200}
+BUDGET_S = {'quick': 300, 'thorough': 1500}
 
 LOCAL = "\nVF_LOC: t=%s | f=VF_REST ;\n"
 
@@ -83,6 +83,7 @@ def run_templates(sh, index, nshards, maxlen):
         rules0 = [(n, gen.strip_cuts(x)) for n, x in rules]
         g = tu.compile_grammar(tu.wrapped_text(grammar_text(rules), start) + LOCAL % start)
         g0 = tu.compile_grammar(tu.wrapped_text(grammar_text(rules0), start))
+        gcls = genparser(tu.wrapped_text(grammar_text(rules), start) + LOCAL % start)
         gtext = grammar_text(rules)
         for L in range(0, maxlen + 1):
             for t in itertools.product('abcd', repeat=L):
@@ -90,13 +91,30 @@ def run_templates(sh, index, nshards, maxlen):
                     complete = False
                     break
                 text = ' '.join(t)
-                d, info = check(rules, start, text, (g, g0))
+                d, info = check(rules, start, text, (g, g0, gcls))
                 cf = info.get('cutfails', [])
                 sh.case((gtext, text), bool(cf), ['template:' + name.split('/')[1], 'template'] + [f'cutfail:{c}' for c in cf],
                         sample=dict(grammar=gtext, input=text, cutfails=cf))
                 if d is not None:
                     sh.fail(d['bucket'], dict(rules=rules, start=start, input=text), d)
     sh.exhaustive[f'cut-scope template family x all strings over {{a,b,c,d}} up to {maxlen} lexemes'] = complete
+
+
+_gcount = [0]
+
+
+def genparser(gtext):
+    """the generated parser for a wrapped grammar text, or None (code generation problems are C02's subject)"""
+    import tatsu
+    _gcount[0] += 1
+    try:
+        src = tatsu.to_python_sourcecode(gtext, name=f'Vf05x{_gcount[0]}')
+        mod = tu.load_generated(src, 'vf05gen')
+        cls = tu.find_parser_class(mod)
+        tu.unload(mod)
+        return cls
+    except Exception:
+        return None
 
 
 def corrupt_after_cut(rnd, lexs, marks):
@@ -122,8 +140,9 @@ def check(rules, start, text, models=None):
             g0 = tu.compile_grammar(tu.wrapped_text(grammar_text(rules0), start))
         except Exception as e:
             return dict(bucket=f'compile:{type(e).__name__}', oracle='a printed valid grammar must compile', observed=str(e)[:300]), {}
+        gcls = genparser(tu.wrapped_text(grammar_text(rules), start) + LOCAL % start)
     else:
-        g, g0 = models
+        g, g0, gcls = models if len(models) == 3 else (*models, None)
     # (a) reference
     d, info = c01.compare(rules, start, text, g)
     if d is not None:
@@ -139,6 +158,11 @@ def check(rules, start, text, models=None):
                 a2 = tu.parse_wrapped(g, text, **skw)
                 if a2[:2] != a[:2] or (a[0] == 'ok' and a2 != a):
                     return dict(bucket='settings:' + sname, oracle='the scope of a cut does not depend on memo settings', default=a, variant=a2, settings=skw), info
+            # (e) the generated parser commits where the model commits (acceptance and consumed length; values are C02's subject)
+            if gcls is not None:
+                gp = tu.parse_wrapped(gcls(), text)
+                if gp[0] != 'exc' and (gp[0] != a[0] or (a[0] == 'ok' and gp[1] != a[1])):
+                    return dict(bucket='generated-parser', oracle='a cut commits in the generated parser exactly where it commits in the model', model=a, generated=gp), info
             # (c) locality
             loc = tu.outcome(lambda: g.parse(text, start='VF_LOC'))
             direct = tu.outcome(lambda: g.parse(text, start=start))
@@ -180,6 +204,7 @@ def run_random(sh, n):
         try:
             g = tu.compile_grammar(tu.wrapped_text(grammar_text(rules), start) + LOCAL % start)
             g0 = tu.compile_grammar(tu.wrapped_text(grammar_text(rules0), start))
+            gcls = genparser(tu.wrapped_text(grammar_text(rules), start) + LOCAL % start) if rnd.random() < 0.5 else None
         except Exception as e:
             sh.fail(f'compile:{type(e).__name__}', dict(rules=rules, start=start, input=''), dict(bucket=f'compile:{type(e).__name__}', observed=str(e)[:300]))
             return
@@ -195,9 +220,9 @@ def run_random(sh, n):
         texts.append(gen.soup(rnd))
         gtext = grammar_text(rules)
         for text in dict.fromkeys(texts):
-            d, info = check(rules, start, text, (g, g0))
+            d, info = check(rules, start, text, (g, g0, gcls))
             cf = info.get('cutfails', [])
-            cls = [f'cutfail:{c}' for c in cf]
+            cls = [f'cutfail:{c}' for c in cf] + (['generated-parser compared'] if gcls is not None else [])
             cls += [f'flag:{f}' for f in info.get('flags', [])]
             cls.append('accepted' if info.get('accepted_with_cut') else 'rejected')
             sh.case((gtext, text), bool(cf), cls, sample=dict(grammar=gtext, input=text, cutfails=cf))
